@@ -32,8 +32,8 @@ var externalPure = map[string]bool{
 }
 
 type effects struct {
-	m    *Model
-	pure map[*types.Func]bool
+	m       *Model
+	pure    map[*types.Func]bool
 	litPure map[*FuncUnit]bool
 }
 
